@@ -118,7 +118,7 @@ fn is_f2(s: &str, mode: u8) -> bool {
 
 const ALPHA: &[u8] = b" \t=\"'ab/";
 
-const POOL_OK: [&str; 6] = ["a='1'", "b=\"2\"", "c = 'x y'", "d\t=\t\"it's\"", "e=''", "a:b='\"'"];
+const POOL_OK: [&str; 8] = ["a='1'", "b=\"2\"", "c = 'x y'", "d\t=\t\"it's\"", "e=''", "a:b='\"'", "A='3'", "a:B='4'"];
 const POOL_BAD: [&str; 9] = ["a='dup'", "k", "k2 =", "u=v", "b=\"x y\"", "q='open", "a = 'dup 2'", "b\t=\t\"2\"", "e =\n''"];
 
 pub fn run(ctx: &Ctx) {
@@ -126,7 +126,7 @@ pub fn run(ctx: &Ctx) {
         "every string up to length N over {space tab = \" ' a b /} taken as the whole attribute area (Attributes::new / html at \
          offset 0) and behind a tag name (BytesStart::from_content), in XML and HTML mode, with and without duplicate checks \
          (8 modes); every byte pair in blank-sensitive positions of four attribute templates (which bytes separate attributes); \
-         every ordered list of up to 4 attributes from a pool of 6 well-formed and 9 faulty items (incl. duplicates with blanks around `=`) with three separators. Oracle: \
+         every ordered list of up to 4 attributes from a pool of 8 well-formed (incl. keys that differ only in case) and 9 faulty items (incl. duplicates with blanks around `=`) with three separators. Oracle: \
          the item sequence of the reference grammar (key bytes, value bytes, error variant + positions, documented recovery point), \
          then None forever (3 extra calls). non-trivial = the grammar yields at least one item; distinct inputs by construction. \
          states = distinct item-kind sequences",
